@@ -49,6 +49,7 @@ type Universe struct {
 	globalWritten map[string]string
 	fieldWritten  map[string]string
 	initInvs      []*InitInv
+	smapType      *types.Map
 	inlined       map[string]bool // functions inlined into a function under contract during this run
 }
 
